@@ -25,7 +25,9 @@ one() {
       cmd/mcrew/*) want="$want C16 C14";;
     esac; done
     caught=""
-    for p in $(echo $want | tr ' ' '\n' | sort -u); do
+    own=${name%%-*}
+    if [ -z "${FULL:-}" ]; then want="$own"; fi
+    for p in $own $(echo $want | tr ' ' '\n' | sort -u | grep -v "^$own\$"); do
       echo " $claimed " | grep -q " $p " || continue
       out=$(cd $S/verif && bin/govc check -p $p -repo $S/repo -verif $S/verif 2>&1); rc=$?
       if [ $rc -ne 0 ]; then ob=$(echo "$out" | grep -m2 -o 'obligation=[^ ]*' | sed 's/obligation=//' | tr '\n' ' '); caught="$caught $p[$ob]"; fi
@@ -35,4 +37,4 @@ one() {
   git -C /repo worktree remove --force $S/repo 2>/dev/null; rm -rf $S
 }
 export -f one; export claimed
-echo $seeds | tr ' ' '\n' | xargs -P 3 -I{} bash -c 'one {}'
+echo $seeds | tr ' ' '\n' | xargs -P ${JOBS:-3} -I{} bash -c 'one {}'
